@@ -32,6 +32,14 @@ ASSUMPTIONS = ["the flip function is the generated 'double_buffer' closure (or n
 def gen_case(R, tier):
   c = R("case")
   uid = "f%x" % (R.seed & 0xffffff)
+  if R("fam").random() < 0.06:
+    # registers indexed through constructor-dependent closure variables, several instances of one class
+    from ..gen import paramcls
+    sx = R("sched")
+    d = paramcls.gen(R("fam"), "p" + uid)
+    d.update(family="paramcls", hash_seed=R.sub_seed("hash"),
+             scheds=[[x, sx.getrandbits(32), sx.getrandbits(32)] for x in sx.sample(C.ALL_SCHEDS, 3)])
+    return d
   if c.random() < 0.5:
     spec = templates.ff_ring(c, uid)
   else:
@@ -115,6 +123,12 @@ def run_one(case, sched, sseed, fseed, D, stats):
 
 
 def run_case(case):
+  if case.get("family") == "paramcls":
+    from . import c01
+    r = c01.run_paramcls(case)
+    r["stats"] = {"fault_counts": r["stats"]["fault_counts"], "ff_orders": [], "sim_cycles": r["stats"]["sim_cycles"],
+                  "edges_with_change": r["stats"]["sim_cycles"], "flip_fired": 0}
+    return r
   D = _rng.Digest()
   stats = {"fault_counts": {}, "ff_orders": [], "sim_cycles": 0, "edges_with_change": 0, "flip_fired": 0}
   viols = []
@@ -133,9 +147,15 @@ def run_case(case):
 
 def sample(case):
   from ..gen import emit
+  if case.get("family") == "paramcls":
+    return {k: v for k, v in case.items() if k != "inputs"}
   return {"profile": case["spec"].get("profile"), "scheds": case["scheds"],
           "n_cycles": len(case["inputs"]), "source_head": emit.source(case["spec"])[:1500]}
 
 
 def shrink(case):
+  if case.get("family") == "paramcls":
+    from . import c01
+    yield from c01.shrink(case)
+    return
   yield from C.shrink_spec_case(case)
